@@ -32,8 +32,11 @@ CUR = {'ctx': None, 'case': None}
 def shards(tier, seed):
     per = 60 if tier == 'quick' else 4000
     budget = 45 if tier == 'quick' else 540
-    return [{'kind': 'random', 'count': per, 'budget_s': budget, 'max_g': 10 if tier == 'quick' else 24}
+    _out = [{'kind': 'random', 'count': per, 'budget_s': budget, 'max_g': 10 if tier == 'quick' else 24}
             for _ in range(16)]
+    if tier == 'thorough':
+        _out.append({'kind': 'suite', 'select': ['tests/cirbo/core', 'tests/cirbo/minimization'], 'budget_s': 900})
+    return _out
 
 
 def _clean(c):
@@ -612,6 +615,11 @@ def gen_case(rng, spec):
 
 def run_shard(spec, ctx):
     install(ctx)
+    if spec.get('kind') == 'suite':
+        from vt import suite
+        import sys
+        suite.run(sys.modules[__name__], ctx, select=spec.get('select'))
+        return
     for i in range(spec['count']):
         if ctx.out_of_time():
             ctx.count('stopped_on_budget')
